@@ -17,9 +17,10 @@ func init() { rt.Register("c14", Run) }
 
 // Step is one element of a history: an API request, a clean restart, or an environment change.
 type Step struct {
-	Kind string // req | restart | env
+	Kind string // req | restart | env | crashgo
 	Q    Req
 	Up   bool
+	K    int // crashgo: continue on the copy taken after the K-th (1-based) transaction of the preceding request
 }
 
 func (s Step) key() string {
@@ -28,6 +29,8 @@ func (s Step) key() string {
 		return "Restart"
 	case "env":
 		return fmt.Sprintf("Env(%v)", s.Up)
+	case "crashgo":
+		return fmt.Sprintf("CrashGo(%d)", s.K)
 	}
 	return s.Q.key()
 }
@@ -47,10 +50,10 @@ type outcome struct {
 	evs []ev
 	// inert: the last step committed no transaction and left the visible catalogue unchanged;
 	// extending the history is then the same as extending the history without that step.
-	inert  bool
-	ntx    int // committed transactions of the last request
-	nsnaps int // crash points restarted
-	kfHint string
+	inert   bool
+	ntx     int  // committed transactions of the last request
+	nsnaps  int  // crash points restarted
+	skipped bool // not executed: the run was cut short after repeated stop hangs
 }
 
 type runner struct {
@@ -149,7 +152,14 @@ func (s *session) request(q Req, wantSnaps bool) (snaps []string, inert bool) {
 }
 
 func (s *session) restart() {
-	s.w.shutdown()
+	if !s.w.shutdown() {
+		// the old stack never stopped: it still holds the file; continue on a consistent copy
+		np := s.rn.tmp("h")
+		if err := s.w.snap.Snapshot(np); err != nil {
+			rt.Fatalf("snapshot of a hung world: %v", err)
+		}
+		s.path = np
+	}
 	w, err := openWorld(s.path, s.up)
 	if err != nil {
 		rt.Fatalf("restart: %v", err)
@@ -327,6 +337,7 @@ func scenarios() [][]Step {
 	ct := func(id, s string) Step { return R(Req{Op: "CreateTpl", ID: id, Script: s}) }
 	ut := func(id, s, nid string) Step { return R(Req{Op: "UpdateTpl", ID: id, Script: s, NewID: nid}) }
 	up := func(q Req) Step { q.Op = "UpdateTask"; return R(q) }
+	cg := func(k int) Step { return Step{Kind: "crashgo", K: k} }
 	return [][]Step{
 		// orphan association of a rejected create, then a foreign task under the same id
 		{ct("p1", "q1"), c("t1", "", "p1", "", "", ""), c("t1", "s1", "", "d1", "", ""), ut("p1", "q2", "")},
@@ -351,6 +362,21 @@ func scenarios() [][]Step {
 		{ct("p1", "q1"), c("t1", "", "p1", "d1", "", "enabled"), c("t2", "", "p1", "d1", "", "enabled"), Step{Kind: "env", Up: false}, ut("p1", "qf", ""), Step{Kind: "env", Up: true}, ut("p1", "qf", ""), Step{Kind: "env", Up: false}, restartStep},
 		// delete and re-create template: documented orphans
 		{ct("p1", "q1"), c("t1", "", "p1", "d1", "", "enabled"), R(Req{Op: "DeleteTpl", ID: "p1"}), up(Req{ID: "t1", Status: "disabled"}), ct("p1", "q2"), up(Req{ID: "t1", Status: "disabled"}), ut("p1", "q1", "")},
+		// --- crash inside a request, restart on that copy, and go on ---
+		// association written, task not yet: a foreign task under that id must not follow the template
+		{ct("p1", "q1"), c("t1", "", "p1", "d1", "", ""), cg(1), c("t1", "s1", "", "d1", "", "enabled"), ut("p1", "q2", ""), restartStep},
+		// templated task deleted, association not yet; then a plain task under the same id
+		{ct("p1", "q1"), c("t1", "", "p1", "d1", "", "enabled"), R(Req{Op: "DeleteTask", ID: "t1"}), cg(2), c("t1", "s1", "", "d1", "", ""), ut("p1", "q2", "")},
+		// rename cut between create and delete: both ids; clean up by hand
+		{c("t1", "s1", "", "d1", "", "enabled"), up(Req{ID: "t1", NewID: "t2"}), cg(1), R(Req{Op: "DeleteTask", ID: "t1"}), restartStep, up(Req{ID: "t2", Status: "disabled"})},
+		// templated rename cut after the new association
+		{ct("p1", "q1"), c("t1", "", "p1", "d1", "", "enabled"), up(Req{ID: "t1", NewID: "t2"}), cg(1), ut("p1", "q2", ""), up(Req{ID: "t1", NewID: "t2"}), ut("p1", "q1", "")},
+		// template switch cut after the task was written: old association still there
+		{ct("p1", "q1"), ct("p2", "q2"), c("t1", "", "p1", "d1", "", ""), up(Req{ID: "t1", Tpl: "p2"}), cg(2), ut("p1", "qf", ""), ut("p2", "q1", "")},
+		// template update cut after the first task; issued again afterwards
+		{ct("p1", "q1"), c("t1", "", "p1", "d1", "", "enabled"), c("t2", "", "p1", "d1", "", "enabled"), ut("p1", "q2", ""), cg(2), ut("p1", "q2", ""), restartStep},
+		// template rename cut before the template itself was saved
+		{ct("p1", "q1"), c("t1", "", "p1", "d1", "", "enabled"), ut("p1", "q2", "p2"), cg(3), up(Req{ID: "t1", Status: "disabled"}), ut("p1", "q2", "p2"), up(Req{ID: "t1", Status: "disabled"})},
 		// delete of templated enabled task, re-create plain under the same id
 		{ct("p1", "q1"), c("t1", "", "p1", "d1", "", "enabled"), R(Req{Op: "DeleteTask", ID: "t1"}), c("t1", "s1", "", "d1", "", "enabled"), ut("p1", "q2", "")},
 	}
@@ -375,6 +401,10 @@ func (rn *runner) runAll(jobs []job, workers int) []outcome {
 			defer wg.Done()
 			for k := range ch {
 				j := jobs[k]
+				if hangs.Load() >= maxHangs {
+					res[k] = outcome{skipped: true, inert: true}
+					continue
+				}
 				if j.crash >= 0 {
 					res[k] = rn.runCrashThen(j.h, j.up, j.crash, j.then)
 				} else {
@@ -390,6 +420,9 @@ func (rn *runner) runAll(jobs []job, workers int) []outcome {
 	wg.Wait()
 	return res
 }
+
+// maxHangs: after that many stop sequences that never returned the rest of the run is skipped.
+const maxHangs = 3
 
 func emit(t *rt.Trace, o outcome) {
 	for i, e := range o.evs {
@@ -446,6 +479,10 @@ func Run(r *rt.Run) error {
 		res := rn.runAll(jobs, workers)
 		var next [][]Step
 		for k, o := range res {
+			if o.skipped {
+				stats["skipped_after_hangs"]++
+				continue
+			}
 			emit(t, o)
 			stats["histories"]++
 			stats["crash_points"] += o.nsnaps
@@ -480,13 +517,31 @@ func Run(r *rt.Run) error {
 		}
 		res := rn.runAll(jobs, workers)
 		for _, o := range res {
+			if o.skipped {
+				stats["skipped_after_hangs"]++
+				continue
+			}
 			emit(t, o)
 			stats["crash_then_continue"]++
 		}
 	}
 	// the named scenarios, every transaction boundary of every request a crash point
 	for _, sc := range scenarios() {
+		if hasCrashGo(sc) {
+			if hangs.Load() >= maxHangs {
+				stats["skipped_after_hangs"]++
+				continue
+			}
+			emit(t, rn.runScript(sc))
+			t.Distinct(keys(sc))
+			stats["crash_scenarios"]++
+			continue
+		}
 		for L := 1; L <= len(sc); L++ {
+			if hangs.Load() >= maxHangs {
+				stats["skipped_after_hangs"]++
+				continue
+			}
 			o := rn.runHistory(sc[:L], true)
 			if L == len(sc) {
 				t.Distinct(keys(sc))
@@ -526,6 +581,10 @@ func Run(r *rt.Run) error {
 			go func() {
 				defer wg.Done()
 				for k := range ch {
+					if hangs.Load() >= maxHangs {
+						resR[k] = outcome{skipped: true}
+						continue
+					}
 					resR[k] = rn.runRandom(jobsR[k], crashAt[k])
 				}
 			}()
@@ -537,6 +596,10 @@ func Run(r *rt.Run) error {
 		wg.Wait()
 	}
 	for k, o := range resR {
+		if o.skipped {
+			stats["skipped_after_hangs"]++
+			continue
+		}
 		emit(t, o)
 		t.Distinct(keys(jobsR[k]))
 		stats["random_histories"]++
@@ -545,6 +608,7 @@ func Run(r *rt.Run) error {
 	for k, v := range stats {
 		r.Extra[k] = v
 	}
+	r.Extra["shutdown_hangs"] = int(hangs.Load())
 	r.Extra["alphabet"] = len(alpha)
 	r.Extra["max_history_len"] = maxLen
 	r.Finish(fmt.Sprintf("every history of length <= %d over an alphabet of %d steps (task create/update/rename/enable/disable/delete, template create/update/rename/delete, clean restart) on a real task_store.Service + TaskMaster + Bolt file, except extensions of a step that committed no transaction and left the catalogue unchanged; the store is copied after every committed transaction of the last request and a fresh stack restarted on every copy; for histories of length <= %d every such crash is followed by every request of the alphabet; %d named scenarios with all their prefixes; %d seeded random histories of length %d..%d with crash-and-continue; non-trivial = history whose last step is not inert, distinct by step sequence",
@@ -676,4 +740,43 @@ func readNDJSON(path string) ([]map[string]any, error) {
 		out = append(out, m)
 	}
 	return out, sc.Err()
+}
+
+func hasCrashGo(h []Step) bool {
+	for _, s := range h {
+		if s.Kind == "crashgo" {
+			return true
+		}
+	}
+	return false
+}
+
+// runScript executes a scenario that contains crashgo steps: the request before such a step is
+// snapshotted, and the history continues on the copy taken after its K-th transaction (the last one
+// if the request committed fewer).
+func (rn *runner) runScript(h []Step) outcome {
+	s, err := rn.begin(true)
+	if err != nil {
+		rt.Fatalf("open world: %v", err)
+	}
+	defer s.end()
+	var o outcome
+	for i := 0; i < len(h); i++ {
+		st := h[i]
+		if st.Kind == "crashgo" {
+			continue // consumed with the preceding request
+		}
+		cut := i+1 < len(h) && h[i+1].Kind == "crashgo" && st.Kind == "req"
+		snaps, _ := s.step(st, cut)
+		if cut && len(snaps) > 0 {
+			k := h[i+1].K - 1
+			if k >= len(snaps) {
+				k = len(snaps) - 1
+			}
+			s.crashGo(snaps, k)
+			o.nsnaps++
+		}
+	}
+	o.evs = s.evs
+	return o
 }
